@@ -84,7 +84,13 @@ fn opclass(w: u16) -> &'static str {
     }
 }
 
-const BOUNDARY: [u16; 7] = [0, 1, 0x7FFF, 0x8000, 0xFFFF, 0xFFFE, 2];
+/// Arithmetic boundaries, then the addresses an LC-3 programmer or emulator author treats specially:
+/// edges of user space, the memory-mapped device registers (KBSR/KBDR/DSR/DDR, PSR, MCR) and the
+/// trap/interrupt vector tables. lace documents none of them as special: plain memory.
+const BOUNDARY: [u16; 22] = [
+    0, 1, 0x7FFF, 0x8000, 0xFFFF, 0xFFFE, 2, 0xFDFF, 0xFE00, 0xFE01, 0xFE02, 0xFE04, 0xFE06, 0xFFFC, 0x2FFF, 0x3000,
+    0x00FF, 0x0100, 0x01FF, 0x0200, 0x0020, 0x0025,
+];
 
 struct GenState {
     reg: [u16; 8],
